@@ -94,3 +94,82 @@ checked_never_none!(c14_t_checked_never_none_pp, false, false);
 root_mp!(c14_q_root_sqrt_neg_mp, 0);
 root_mp!(c14_q_root_even_neg_mp, 1);
 root_mp!(c14_q_root_zeroth_mp, 2);
+
+// Signed scalar operands at their MINIMUM: -MIN does not exist in the scalar type, so a careless negation overflows (a debug-profile
+// panic outside the documented set) although the mathematical result is perfectly representable. One query per scalar type; the BigInt
+// is an arbitrary one-digit value of either sign; results compared in a 4-word two's-complement window.
+fn dig(d: &[u64], i: usize) -> u64 { if i < d.len() { d[i] } else { 0 } }
+fn min_window(wide: i128) -> [u64; 4] {
+    [wide as u64, (wide >> 64) as u64, u64::MAX, u64::MAX]
+}
+fn shl_window(a: &[u64; 4], k: u32) -> [u64; 4] {
+    // k < 128
+    let (w, b) = ((k / 64) as usize, k % 64);
+    let mut r = [0u64; 4];
+    let mut i = 0;
+    while i < 4 {
+        if i >= w {
+            let lo = a[i - w] << b;
+            let hi = if b > 0 && i > w { a[i - w - 1] >> (64 - b) } else { 0 };
+            r[i] = lo | hi;
+        }
+        i += 1;
+    }
+    r
+}
+macro_rules! min_scalar_addsub {
+    ($name:ident, $T:ty) => {
+        #[kani::proof]
+        #[kani::unwind(34)]
+        #[kani::stub(alloc::vec::Vec::shrink_to_fit, vc::noop_shrink)]
+        #[kani::stub(core::arch::x86_64::_addcarry_u64, vc::stub_addcarry)]
+        #[kani::stub(core::arch::x86_64::_subborrow_u64, vc::stub_subborrow)]
+        #[kani::stub(crate::biguint::addition::schoolbook_add_assign_x86_64, vc::model_add)]
+        #[kani::stub(crate::biguint::subtraction::schoolbook_sub_assign_x86_64, vc::model_sub)]
+        fn $name() {
+            let a0: [u64; 1] = vc::any_canon::<1>();
+            let neg: bool = kani::any();
+            let s: $T = <$T>::MIN;
+            let m = min_window(s as i128);
+            let t = tc::<4>(&mkint(neg, &a0));
+            let mut x = mkint(neg, &a0);
+            x += s;
+            check_int::<4>(&x, &add_w(&t, &m));
+            let mut y = mkint(neg, &a0);
+            y -= s;
+            check_int::<4>(&y, &sub_w(&t, &m));
+            check_int::<4>(&(mkint(neg, &a0) + s), &add_w(&t, &m));
+            check_int::<4>(&(s - mkint(neg, &a0)), &sub_w(&m, &t));
+        }
+    };
+}
+macro_rules! min_scalar_mul {
+    ($name:ident, $T:ty) => {
+        #[kani::proof]
+        #[kani::unwind(34)]
+        #[kani::stub(alloc::vec::Vec::shrink_to_fit, vc::noop_shrink)]
+        #[kani::stub(core::arch::x86_64::_addcarry_u64, vc::stub_addcarry)]
+        #[kani::stub(crate::biguint::addition::schoolbook_add_assign_x86_64, vc::model_add)]
+        #[kani::stub(crate::biguint::shift::biguint_shl, crate::biguint::shift::verif_c07_biguint_shift::shl_fixedb_0)]
+        fn $name() {
+            let a0: [u64; 1] = vc::any_canon::<1>();
+            let neg: bool = kani::any();
+            let s: $T = <$T>::MIN;
+            // a * MIN (a power of two: scalar_mul shifts; the shift kernel runs with the concrete word count 0) = -(a << (BITS - 1))
+            let t = tc::<4>(&mkint(neg, &a0));
+            let e = neg_w(&shl_window(&t, <$T>::BITS - 1));
+            let x = mkint(neg, &a0) * s;
+            kani::assert(int_canonical(&x) && is_neg(&x) != neg && mag(&x).len() <= 3, "VERIF a * MIN has the wrong sign or is not canonical");
+            let m = [dig(mag(&x), 0), dig(mag(&x), 1), dig(mag(&x), 2), 0];
+            kani::assert(eq_w(&(if neg { m } else { neg_w(&m) }), &e), "VERIF a * MIN != -(a << (BITS - 1))");
+        }
+    };
+}
+min_scalar_addsub!(c14_q_min_scalar_addsub_i8, i8);
+min_scalar_addsub!(c14_q_min_scalar_addsub_i16, i16);
+min_scalar_addsub!(c14_q_min_scalar_addsub_i32, i32);
+min_scalar_addsub!(c14_q_min_scalar_addsub_i64, i64);
+min_scalar_addsub!(c14_q_min_scalar_addsub_isize, isize);
+min_scalar_addsub!(c14_q_min_scalar_addsub_i128, i128);
+// thorough-tier attempt only: CBMC ran out of memory in propositional reduction (10 min) on the owned-shift path of scalar_mul
+min_scalar_mul!(c14_t_min_scalar_mul_i64, i64);
